@@ -255,8 +255,16 @@ func NewHDRHistogramPlotReporter(m *Metrics) Reporter {
 		}
 
 		total := float64(m.Requests)
+		var prev time.Duration
 		for _, q := range logarithmic {
-			value := milliseconds(m.Latencies.Quantile(q))
+			// Quantile estimates are only monotonic up to rounding
+			// errors: never let a row fall below the previous one.
+			d := m.Latencies.Quantile(q)
+			if d < prev {
+				d = prev
+			}
+			prev = d
+			value := milliseconds(d)
 			oneBy := oneByQuantile(q)
 			count := int64((q * total) + 0.5) // Count at quantile
 			_, err = fmt.Fprintf(tw, "%f\t%f\t%d\t%f\n", value, q, count, oneBy)
